@@ -109,7 +109,7 @@ func VerifC01_Hello() {
 		for j := 0; j < w; j++ {
 			e.Bitmaps = append(e.Bitmaps, vr.U32("bitmap"))
 		}
-		e.Length = e.Len()
+		e.Length = uint16(4 + 4*len(e.Bitmaps)) // the length field excludes the padding
 		h.Elements = append(h.Elements, e)
 	}
 	c01framed(h, Type_Hello)
